@@ -133,6 +133,13 @@ func genC05CaseFor(t *rapid.T, rule string) (c *ScalarCase, class string) {
 					seps[i] = s
 					parts = append(parts, s)
 				}
+				if rapid.IntRange(0, 2).Draw(t, "siblingSeps") == 1 {
+					// separator lists that differ but read alike once written one after the other
+					// ("-" "" ":" / "" "-" ":"; the default list spelled out): each has a layout of its own
+					parts = rapid.SampledFrom([][]string{{"-", "", ":"}, {"", "-", ":"}, {"-", " ", ":"}, {"", "- ", ":"}, {"- ", "", ":"}, {".", "T", ":"}, {".T", "", ":"}, {"", ".T", ":"}}).Draw(t, "siblingList")
+					k = 3
+					copy(seps[:], parts)
+				}
 				if k == 1 && parts[0] != "" && rapid.Bool().Draw(t, "unquoted") {
 					item = rule + "=" + parts[0]
 				} else {
